@@ -52,6 +52,7 @@ from .events import (
     DoneEvent,
     Event,
     ScopedAfterEvent,
+    ScopedDoneEvent,
 )
 from .exceptions import (
     ImplementationMissingError,
@@ -2375,10 +2376,17 @@ class BaseInterpreter(Generic[TContext, TEvent]):
                 )
                 # 📨 Create and send the synthetic `done.state.*` event,
                 #    carrying the final state's `output` as done data.
-                done_event = DoneEvent(
-                    type=f"done.state.{ancestor.id}",
-                    data=self._resolve_output(final_state),
-                    src=ancestor.id,
+                #    Stamped with the completed state's activation, so a
+                #    completion notice still queued when that state is left
+                #    and re-entered cannot fire `onDone` on an activation
+                #    that is not complete.
+                done_event = self._scope_event(
+                    ScopedDoneEvent(
+                        type=f"done.state.{ancestor.id}",
+                        data=self._resolve_output(final_state),
+                        src=ancestor.id,
+                    ),
+                    ancestor.id,
                 )
                 # 🔁 A `done.state` event sent while an event is being
                 #    processed is self-raised, exactly like `raise`. Count it
